@@ -338,3 +338,41 @@ func H_M9_map_lengths() {
 		nd.Assert(mEq(c1, c2), "long map entry round trips")
 	}
 }
+
+// H_M9_sizecache: the proto.Marshal sequence (Size, then Marshal with UseCachedSize) on messages
+// whose children sit in a map value or in a oneof member, with arbitrary stale cache contents in
+// the parent and the child: the output equals a fresh Marshal.
+//
+//verif:props=C16 bounds=v.Maps.m3/m4(one-entry)|v.One.m;child-with-free-int32-field-or-empty;arbitrary-int32-cache-contents maxsteps=8000000 timeout=60000
+func H_M9_sizecache() {
+	child := new(VChild)
+	if nd.Bool() {
+		a := nd.Int32()
+		child.A = &a
+	}
+	var mi *MessageInfo
+	var p pointer
+	switch nd.Int(0, 2) {
+	case 0:
+		x := &VMaps{M3: map[int32]*VChild{int32(nd.Byte()): child}}
+		x.sizeCache = nd.Int32()
+		mi, p = vMI_Maps(), pointer{p: unsafe.Pointer(x)}
+	case 1:
+		x := &VMaps{M4: map[string]*VChild{"k": child}}
+		x.sizeCache = nd.Int32()
+		mi, p = vMI_Maps(), pointer{p: unsafe.Pointer(x)}
+	default:
+		x := &VOne{O: &VOne_M{M: child}}
+		x.sizeCache = nd.Int32()
+		mi, p = vMI_One(), pointer{p: unsafe.Pointer(x)}
+	}
+	want, werr := mi.marshalAppendPointer(nil, p, marshalOptions{})
+	nd.Assert(werr == nil, "fresh marshal succeeds")
+	child.sizeCache = nd.Int32() // stale
+	size := mi.sizePointer(p, marshalOptions{})
+	got, err := mi.marshalAppendPointer(nil, p, marshalOptions{flags: protoiface.MarshalUseCachedSize})
+	nd.Reach("marshalled")
+	nd.Assert(err == nil, "marshal with cached sizes succeeds")
+	nd.Assert(size == len(want), "Size is recomputed below a map value / oneof member, not taken from a stale cache")
+	nd.Assert(mEq(got, want), "Marshal after Size encodes the current content whatever the caches held (map value / oneof member)")
+}
